@@ -63,6 +63,35 @@ func (d *Document) BlockStringValueContentRawBytes(ref int) []byte {
 	return d.Input.RawBytes[blockStart:blockEnd]
 }
 
+var blockStringDelimiter = []byte(`"""`)
+
+// blockStringSourceBytes returns everything between the delimiters of a block string literal that was lexed from the
+// document input. The lexer keeps the content without the white space next to the delimiters, but that white space
+// is part of what the literal denotes (indentation of the first line, blanks at the end of the last line, the common
+// indentation of all lines). ok is false when the content is not surrounded by block string delimiters in the input,
+// e.g. for imported or copied values.
+func (d *Document) blockStringSourceBytes(content ByteSliceReference) (source []byte, ok bool) {
+	raw := d.Input.RawBytes
+	start, end := int(content.Start), int(content.End)
+	if start > end || end > len(raw) {
+		return nil, false
+	}
+	for start > 0 && isBlockStringWhitespace(raw[start-1]) {
+		start--
+	}
+	for end < len(raw) && isBlockStringWhitespace(raw[end]) {
+		end++
+	}
+	if start < 3 || end+3 > len(raw) || !bytes.Equal(raw[start-3:start], blockStringDelimiter) || !bytes.Equal(raw[end:end+3], blockStringDelimiter) {
+		return nil, false
+	}
+	return raw[start:end], true
+}
+
+func isBlockStringWhitespace(b byte) bool {
+	return b == ' ' || b == '\t' || b == '\n' || b == '\r'
+}
+
 func (d *Document) BlockStringValueContentRawString(ref int) string {
 	return unsafebytes.BytesToString(d.BlockStringValueContentRawBytes(ref))
 }
